@@ -134,7 +134,8 @@ SELF_KERNELS = {"get_set_haplotype": ("ScaffoldNamer_get_set_haplotype", ["str"]
                 "haplotig_name": ("ScaffoldNamer_haplotig_name", [], "str"), "unloc_name": ("ScaffoldNamer_unloc_name", [], "str"),
                 "haplotype_from_first_row_name": ("ScaffoldNamer_haplotype_from_first_row_name", ["scaffold"], O("str"))}
 # methods of self that mutate it: (type, method) -> lean function  `T → R T`
-MUT_METHOD = {("ovres", "discard_start"): "OverlapResult.discardStart", ("ovres", "discard_end"): "OverlapResult.discardEnd"}
+MUT_METHOD = {("ovres", "discard_start"): "OverlapResult.discardStart", ("ovres", "discard_end"): "OverlapResult.discardEnd",
+              ("ovres", "trim_large_overhangs"): "OverlapResult.trimLargeOverhangs"}
 # pure methods: (type, method, arg types) -> (result type, template)
 PURE_METHOD = {("frag", "abuts"): (["frag"], "bool", "(Fragment.abuts {0} {1})"), ("frag", "overlaps"): (["frag"], "bool", "(Fragment.overlaps {0} {1})"),
                ("frag", "gap_between"): (["frag"], O("int"), "(Fragment.gapBetween {0} {1})"),
@@ -237,6 +238,12 @@ def assigned(stmts):
                 add(dotted(n.func.value) + "_" + ("header" if n.func.attr == "add_header_line" else "scaffolds"))
             elif isinstance(n, ast.Call) and isinstance(n.func, ast.Attribute) and n.func.attr in SELF_KERNELS:
                 add("self")
+            elif isinstance(n, ast.Call) and isinstance(n.func, ast.Attribute) and n.func.attr in ("make_scaffold_name", "label_scaffold", "rename_unlocs_by_size", "rename_haplotigs_by_size", "rename_by_size",
+                                                                                              "find_overlaps", "trim_large_overhangs", "store_fragments_found", "cut_fragments"):
+                for r in ("store", "self_scaffold_namer", "heap_ff", "self_found_fragments", "self_fragments_found_more_than_once", "nextOid", "self_assembly_stats_cuts"):
+                    add(r)
+            elif isinstance(n, ast.Call) and isinstance(n.func, ast.Attribute) and n.func.attr == "add_scaffold" and dotted(n.func) == "self.add_scaffold":
+                add("store")
             elif isinstance(n, ast.Call) and isinstance(n.func, ast.Attribute) and n.func.attr == "setdefault":
                 r = root_of(n.func.value)
                 if r:
@@ -305,7 +312,7 @@ class Kernel:
             return "none"
         if isinstance(to, tuple) and to[0] == "opt" and to[1] == frm:
             return f"(some {term})"
-        if frm == "emptylist" and isinstance(to, tuple) and to[0] in ("list", "set"):
+        if frm == "emptylist" and isinstance(to, tuple) and to[0] in ("list", "set", "dict"):
             return "[]"
         if frm == "nat" and to == "int":
             return f"(Int.ofNat {term})"
@@ -328,7 +335,7 @@ class Kernel:
             return f"(!({term}).isEmpty)"
         if ty == "int":
             return f"(decide ({term} ≠ 0))"
-        if isinstance(ty, tuple) and ty[0] == "opt" and (ty[1] in ("frag", "gap", "row", "scaffold", "ovres", "fastainfo", "scref", "ffref") or (isinstance(ty[1], tuple) and ty[1][0] == "match")):
+        if isinstance(ty, tuple) and ty[0] == "opt" and (ty[1] in ("frag", "gap", "row", "scaffold", "ovres", "fastainfo", "scref", "ffref", "ovref") or (isinstance(ty[1], tuple) and ty[1][0] == "match")):
             return f"({term}).isSome"
         if isinstance(ty, tuple) and ty[0] == "opt" and ty[1] == "int":
             # `if g := a.gap_between(b):` — None and 0 are both false
@@ -489,6 +496,8 @@ class Kernel:
             if cur:
                 segs.append("[" + ", ".join(cur) + "]")
             return "(" + " ++ ".join(segs) + ")", L(ety)
+        if isinstance(e, ast.Dict) and not e.keys:
+            return "[]", "emptylist"
         if isinstance(e, ast.Dict):
             ks = [self.expr(k, env, binds) for k in e.keys]
             vs = [self.expr(v, env, binds) for v in e.values]
@@ -676,6 +685,18 @@ class Kernel:
         path = dotted(f)
         if path and path.split(".")[0] in self.aliases:
             path = ".".join([self.aliases[path.split(".")[0]]] + path.split(".")[1:])
+        if path and path in self.spec.get("alloc_calls", {}) and "store" in env:
+            # a call that CREATES an OverlapResult (or returns None): the new object gets the next free place in the store, the value is a reference
+            argt = self.spec["alloc_calls"][path]
+            args = [self.coerce(*self.expr(a, env, binds), w) for a, w in zip(e.args, argt)]
+            nm = path.replace(".", "_")
+            self.param(nm, ("fun", argt, O("ovres"), True))
+            v = self.fresh("new")
+            at = self.fresh("at")
+            binds.append((v, "(" + " ".join([nm] + args) + ")", O("ovres")))
+            binds.append((at, "store.length", "nat", "let"))
+            binds.append(("store", f"(match {v} with | some o => store ++ [({{ o := o, added := false }} : Res)] | none => store)", "store", "let"))
+            return f"(({v}).map (fun _ => {at}))", O("ovref")
         if path and path in self.spec.get("opaque", {}):
             argt, rty, imp = self.spec["opaque"][path]
             if e.keywords or len(e.args) != len(argt):
@@ -1282,7 +1303,7 @@ class Kernel:
         if isinstance(tg, ast.Name):
             # alias of an output object: `out = self.out`
             p = dotted(s.value)
-            if p and p in self.spec.get("dict_roots", {}) and isinstance(self.spec["dict_roots"][p], tuple) and self.spec["dict_roots"][p][0] == "dict":
+            if p and p in self.spec.get("dict_roots", {}) and (self.spec["dict_roots"][p] == "namer" or (isinstance(self.spec["dict_roots"][p], tuple) and self.spec["dict_roots"][p][0] == "dict")):
                 self.aliases[tg.id] = p.replace(".", "_")       # a second name for a dictionary attribute
                 return self.block(rest, env, loop)
             if p and p in self.spec.get("sinks", {}):
@@ -1431,13 +1452,83 @@ class Kernel:
             if tk != td[1] or L(tv) != td[2]:
                 raise Unsupported("setdefault(...).append types")
             return self.with_binds(binds, [self.let(d, td, f"dSet {d} {k} (((dGet? {d} {k}).getD []) ++ [{v}])")] + self.block(rest, env, loop))
+        if isinstance(f, ast.Attribute) and "store" in env and dotted(f.value) in self.aliases and env.get(self.aliases[dotted(f.value)]) == "namer" \
+                or (isinstance(f, ast.Attribute) and "store" in env and dotted(f.value) and dotted(f.value).replace(".", "_") in env and env[dotted(f.value).replace(".", "_")] == "namer"):
+            # a method of the ScaffoldNamer object held by a root variable: a call of the translated kernel (defined earlier in this file)
+            nv = self.aliases.get(dotted(f.value), dotted(f.value).replace(".", "_"))
+            m = f.attr
+            kw = {k.arg: k.value for k in c.keywords}
+            if m == "make_scaffold_name" and len(c.args) == 2 and not kw:
+                (a, ta), (b, tb) = self.expr(c.args[0], env, binds), self.expr(c.args[1], env, binds)
+                nm = self.fresh("nk")
+                binds.append((nm, f"(ScaffoldNamer_make_scaffold_name {nv} {self.coerce(a, ta, 'scaffold')} {self.coerce(b, tb, O(L('str')))})", "namer"))
+                return self.with_binds(binds, [self.let(nv, "namer", nm)] + self.block(rest, env, loop))
+            if m == "label_scaffold" and not c.args and set(kw) == {"scaffold", "fragment", "scaffold_tags", "original_name"}:
+                vals = {k.arg: self.expr(k.value, env, binds) for k in c.keywords}      # evaluated in the order written
+                want = {"scaffold": "ovref", "fragment": "frag", "scaffold_tags": L("str"), "original_name": "str"}
+                a = {k: self.coerce(t, ty, want[k]) for k, (t, ty) in vals.items()}
+                nm = self.fresh("nk")
+                binds.append((nm, f"(ScaffoldNamer_label_scaffold store {nv} {a['scaffold']} {a['fragment']} {a['scaffold_tags']} {a['original_name']})", ("tuple", ["namer", "store"])))
+                return self.with_binds(binds, [self.let(nv, "namer", f"{nm}.1"), self.let("store", "store", f"{nm}.2")] + self.block(rest, env, loop))
+            if m in ("rename_unlocs_by_size", "rename_haplotigs_by_size") and not c.args and not kw:
+                lst = "unloc_scaffolds" if m == "rename_unlocs_by_size" else "haplotig_scaffolds"
+                # `rename_…_by_size()` is `self.rename_by_size(self.<list>)` (checked: the wrapper itself is translated as ScaffoldNamer_<m>)
+                nm = self.fresh("nk")
+                binds.append((nm, f"(ScaffoldNamer_{m} store {nv})", "store"))
+                return self.with_binds(binds, [self.let("store", "store", nm)] + self.block(rest, env, loop))
+            if m == "rename_by_size" and len(c.args) == 1 and not kw:
+                t, ty = self.expr(c.args[0], env, binds)
+                nm = self.fresh("nk")
+                binds.append((nm, f"(ScaffoldNamer_rename_by_size store {self.coerce(t, ty, L('ovref'))})", "store"))
+                return self.with_binds(binds, [self.let("store", "store", nm)] + self.block(rest, env, loop))
+            raise Unsupported(f"method {m} of the namer")
+        if isinstance(f, ast.Attribute) and isinstance(f.value, ast.Name) and f.value.id == "self" and env.get("self") == "namer" and f.attr == "rename_by_size" \
+                and len(c.args) == 1 and "store" in env:
+            t, ty = self.expr(c.args[0], env, binds)
+            nm = self.fresh("nk")
+            binds.append((nm, f"(ScaffoldNamer_rename_by_size store {self.coerce(t, ty, L('ovref'))})", "store"))
+            return self.with_binds(binds, [self.let("store", "store", nm)] + self.block(rest, env, loop))
+        if isinstance(f, ast.Attribute) and not c.keywords and "store" in env and len(c.args) <= 1:
+            try:
+                obj0, tobj0 = self.expr(f.value, env, [])
+            except Unsupported:
+                obj0, tobj0 = None, None
+            if tobj0 == "ovref" and ("ovres", f.attr) in MUT_METHOD:
+                obj, tobj = self.expr(f.value, env, binds)
+                args = [self.expr(a, env, binds)[0] for a in c.args]
+                nm = self.fresh("mu")
+                binds.append((nm, "(" + " ".join([MUT_METHOD[("ovres", f.attr)], f"(getRes store {obj})"] + args) + ")", "ovres"))
+                return self.with_binds(binds, [self.let("store", "store", f"PyRt.updRes store {obj} {nm}")] + self.block(rest, env, loop))
+            if dotted(f) == "self.add_scaffold" and len(c.args) == 1 and self.spec.get("build_assembly"):
+                t, ty = self.expr(c.args[0], env, binds)
+                if ty != "ovref":
+                    raise Unsupported("add_scaffold argument")
+                return self.with_binds(binds, [self.let("store", "store", f"PyRt.markAdded store {t}")] + self.block(rest, env, loop))
+            if dotted(f) == "self.store_fragments_found" and len(c.args) == 1 and self.spec.get("build_assembly"):
+                t, ty = self.expr(c.args[0], env, binds)
+                nm = self.fresh("sf")
+                binds.append((nm, f"(BuildAssembly_store_fragments_found store heap_ff self_found_fragments self_fragments_found_more_than_once {t})",
+                              ("tuple", ["store", L("found"), FF_DICT, FF_DICT])))
+                return self.with_binds(binds, [self.let("store", "store", f"{nm}.1"), self.let("heap_ff", L("found"), f"{nm}.2.1"),
+                                               self.let("self_found_fragments", FF_DICT, f"{nm}.2.2.1"),
+                                               self.let("self_fragments_found_more_than_once", FF_DICT, f"{nm}.2.2.2")] + self.block(rest, env, loop))
+            if dotted(f) == "self.cut_fragments" and len(c.args) == 1 and self.spec.get("build_assembly"):
+                t, ty = self.expr(c.args[0], env, binds)
+                if ty != "ffref":
+                    raise Unsupported("cut_fragments argument")
+                fnd = f"(PyRt.getFound heap_ff {t})"
+                nm = self.fresh("cf")
+                binds.append((nm, f"(BuildAssembly_cut_fragments store nextOid self_assembly_stats_cuts {fnd}.fragment {fnd}.scaffolds (fun subs => BuildAssembly_qc_sub_fragments subs {fnd}.fragment))",
+                              ("tuple", ["store", "nat", "int"])))
+                return self.with_binds(binds, [self.let("store", "store", f"{nm}.1"), self.let("nextOid", "nat", f"{nm}.2.1"),
+                                               self.let("self_assembly_stats_cuts", "int", f"{nm}.2.2")] + self.block(rest, env, loop))
         if isinstance(f, ast.Attribute) and not c.keywords and not c.args and "store" in env:
             obj, tobj = self.expr(f.value, env, binds)
             if tobj == "premise" and f.attr == "apply":
                 nm = self.fresh("st")
                 binds.append((nm, f"(Premise.apply {obj} store)", "store"))
                 return self.with_binds(binds, [self.let("store", "store", nm)] + self.block(rest, env, loop))
-            if tobj == "ovref" and ("ovres", f.attr) in MUT_METHOD:
+            if tobj == "ovref" and ("ovres", f.attr) in MUT_METHOD and False:
                 nm = self.fresh("mu")
                 binds.append((nm, f"({MUT_METHOD[('ovres', f.attr)]} (getRes store {obj}))", "ovres"))
                 return self.with_binds(binds, [self.let("store", "store", f"PyRt.updRes store {obj} {nm}")] + self.block(rest, env, loop))
@@ -1584,7 +1675,7 @@ class Kernel:
 
         def opt_obj(n):
             return isinstance(n, ast.Name) and isinstance(env.get(n.id), tuple) and env[n.id][0] == "opt" \
-                and (env[n.id][1] in ("frag", "gap", "row", "scaffold", "ovres", "fastainfo", "scref", "ffref") or (isinstance(env[n.id][1], tuple) and env[n.id][1][0] == "match") or (isinstance(env[n.id][1], tuple) and env[n.id][1][0] == "tuple" and env[n.id][1][1]))
+                and (env[n.id][1] in ("frag", "gap", "row", "scaffold", "ovres", "fastainfo", "scref", "ffref", "ovref") or (isinstance(env[n.id][1], tuple) and env[n.id][1][0] == "match") or (isinstance(env[n.id][1], tuple) and env[n.id][1][0] == "tuple" and env[n.id][1][1]))
         if isinstance(test, ast.UnaryOp) and isinstance(test.op, ast.Not) and opt_obj(test.operand):
             isnone = ast.Compare(left=ast.Name(id=test.operand.id, ctx=ast.Load()), ops=[ast.Is()], comparators=[ast.Constant(value=None)])
             return self.if_stmt(ast.If(test=isnone, body=s.body, orelse=s.orelse), rest, env, loop)
@@ -1975,6 +2066,18 @@ IMP_KERNELS_8 = [
     dict(file=NAMER_FILE, qual="ScaffoldNamer.rename_by_size", lean="ScaffoldNamer_rename_by_size", heap=True, params={"scaffolds": L("ovref")}),
 ]
 
+BA = "assembly/build_assembly.py"
+IMP_KERNELS_9 = [
+    dict(file=NAMER_FILE, qual="ScaffoldNamer.rename_unlocs_by_size", lean="ScaffoldNamer_rename_unlocs_by_size", heap=True, params={"self": "namer"}),
+    dict(file=NAMER_FILE, qual="ScaffoldNamer.rename_haplotigs_by_size", lean="ScaffoldNamer_rename_haplotigs_by_size", heap=True, params={"self": "namer"}),
+    dict(file=BA, qual="BuildAssembly.find_assembly_overlaps", lean="BuildAssembly_find_assembly_overlaps", heap=True, found_arena=True, build_assembly=True,
+         attr_params={"prtxt_asm.scaffolds": L("scaffold"), "self.error_length": "int"}, locals={"found": O("ovref")},
+         alloc_calls={"input_asm.find_overlaps": ["frag"]},
+         dict_roots={"self.scaffold_namer": "namer", "self.found_fragments": FF_DICT, "self.fragments_found_more_than_once": FF_DICT}),
+    dict(file=BA, qual="BuildAssembly.cut_remaining_overhangs", lean="BuildAssembly_cut_remaining_overhangs", heap=True, oid_counter=True, found_arena=True,
+         build_assembly=True, dict_roots={"self.fragments_found_more_than_once": FF_DICT, "self.assembly_stats.cuts": "int"}),
+]
+
 IMP_KERNELS = [
     dict(file="assembly/indexed_assembly.py", qual="IndexedAssembly.find_overlaps", lean="IndexedAssembly_find_overlaps",
          params={"bait": "frag"}, returns=O("ovres"), locals={"ovr": O("int")},
@@ -2006,7 +2109,7 @@ IMP_KERNELS = [
 def main():
     parts = ["/- GENERATED by harness/translate_imp.py from /repo/src — do not edit -/", "import AgpTpf.Model.PyRt", "import AgpTpf.Model.PyRtHeap", "import AgpTpf.Model.Lookup",
              "import AgpTpf.Model.Fasta", "import AgpTpf.Model.Text", "set_option linter.unusedVariables false", "namespace AgpTpf.Gen.Imp", "open AgpTpf", ""]
-    for spec in IMP_KERNELS + IMP_KERNELS_2 + IMP_KERNELS_3 + IMP_KERNELS_4 + IMP_KERNELS_5 + IMP_KERNELS_6 + IMP_KERNELS_7 + IMP_KERNELS_8:
+    for spec in IMP_KERNELS + IMP_KERNELS_2 + IMP_KERNELS_3 + IMP_KERNELS_4 + IMP_KERNELS_5 + IMP_KERNELS_6 + IMP_KERNELS_7 + IMP_KERNELS_8 + IMP_KERNELS_9:
         parts.append(translate(spec))
     parts.append("end AgpTpf.Gen.Imp\n")
     txt = "\n".join(parts)
